@@ -72,6 +72,8 @@ fn file_project(value_json: &str) -> Project {
             ("count".into(), st("[count]")),
             ("p_one".into(), st("one")),
             ("p_other".into(), s(vec![text("other"), var("count")])),
+            ("e".into(), st("")),
+            ("c".into(), s(vec![comp("b", vec![var("x")])])),
         ],
     );
     p
